@@ -682,7 +682,9 @@ def glue_trio() -> None:
         thread_name = frame.pyframe.f_locals.get("thread_name")
         worker_fn = frame.pyframe.f_locals.get("worker_fn")
         sync_fn = frame.pyframe.f_locals.get("sync_fn")
-        if not (thread_name and worker_fn and sync_fn):  # pragma: no cover
+        if (
+            thread_name is None or worker_fn is None or sync_fn is None
+        ):  # pragma: no cover
             # We're in the initial setup-y part, thread not running yet
             return None
 
